@@ -851,9 +851,16 @@ static int loc_file_no(Token *tok) {
   return tok->file->file_no;
 }
 
+// Writes a line record. A line number that has overflowed (lines after
+// '#line 2147483647') cannot be recorded.
+static void emit_loc(Token *tok) {
+  if (tok->line_no > 0)
+    println("  .loc %d %d", loc_file_no(tok), tok->line_no);
+}
+
 // Generate code for a given node.
 static void gen_expr(Node *node) {
-  println("  .loc %d %d", loc_file_no(node->tok), node->tok->line_no);
+  emit_loc(node->tok);
 
   switch (node->kind) {
   case ND_NULL_EXPR:
@@ -1429,7 +1436,7 @@ static void gen_expr(Node *node) {
 }
 
 static void gen_stmt(Node *node) {
-  println("  .loc %d %d", loc_file_no(node->tok), node->tok->line_no);
+  emit_loc(node->tok);
 
   switch (node->kind) {
   case ND_IF: {
